@@ -43,6 +43,7 @@ type Op struct {
 	Labels  [][]string `json:"labels"`
 	Value   int        `json:"value"` // unit 0.5
 	Buckets bool       `json:"buckets"`
+	Cut     string     `json:"cut"` // "" | string | colon | labels: the file ends inside this (last) operation
 }
 
 type Series struct {
@@ -167,8 +168,31 @@ func fileLine(op Op, shortcut bool) string {
 	return "{" + strings.Join(parts, ",") + "}"
 }
 
+// cutLine writes down an operation the file ends in the middle of: inside a string, right after a colon, or inside
+// the labels object (spec/Metrics: cut). What is left is not a JSON document any more.
+func cutLine(line, where string) string {
+	switch where {
+	case "string":
+		if i := strings.Index(line, `"name":"`); i >= 0 {
+			return line[:i+len(`"name":"`)+1]
+		}
+	case "colon":
+		if i := strings.LastIndex(line, ":"); i >= 0 && !strings.Contains(line, `"labels"`) {
+			return line[:i+1]
+		}
+	case "labels":
+		if i := strings.Index(line, `"labels":{`); i >= 0 && strings.HasSuffix(line, "}}") {
+			return line[:len(line)-2]
+		}
+	}
+	panic(fmt.Sprintf("cannot cut %q at %q", line, where))
+}
+
+func truncated(b Batch) bool { return len(b.Ops) > 0 && b.Ops[len(b.Ops)-1].Cut != "" }
+
 func render(b Batch, how string) ([]operation.MetricOperation, string, error) {
-	if how == "constructed" {
+	// a truncated batch exists as a file only: the constructed rendering writes the file, too
+	if how == "constructed" && !truncated(b) {
 		ops := make([]operation.MetricOperation, 0, len(b.Ops))
 		for _, op := range b.Ops {
 			ops = append(ops, construct(op))
@@ -177,6 +201,10 @@ func render(b Batch, how string) ([]operation.MetricOperation, string, error) {
 	}
 	var sb strings.Builder
 	for _, op := range b.Ops {
+		if op.Cut != "" {
+			sb.WriteString(cutLine(fileLine(op, how == "shortcut"), op.Cut)) // the file ends here
+			break
+		}
 		sb.WriteString(fileLine(op, how == "shortcut"))
 		sb.WriteString("\n")
 	}
@@ -282,6 +310,8 @@ func showExp(want map[string]exp) string {
 
 func whyInvalid(op Op) string {
 	switch {
+	case op.Cut != "":
+		return "truncated-in-" + op.Cut
 	case op.Action == "":
 		return "no-action"
 	case op.Action == "both":
@@ -427,7 +457,7 @@ func replayCase(c Case) Result {
 		for i, b := range c.Batches {
 			ops, text, perr := render(b, how)
 			input := text
-			if how == "constructed" {
+			if how == "constructed" && !truncated(b) {
 				input = fmt.Sprintf("%v", ops)
 			}
 			var err error
@@ -439,7 +469,11 @@ func replayCase(c Case) Result {
 			act, gerr := project(ms)
 			post := expected(b.Post)
 			r.Batches++
-			where := fmt.Sprintf("batch %d of the history (hook %s, %s syntax) %s", i+1, b.Hook, how, strings.TrimSpace(strings.ReplaceAll(input, "\n", " ")))
+			syntax := how
+			if how == "constructed" && truncated(b) {
+				syntax = "file (a truncated file cannot be constructed)"
+			}
+			where := fmt.Sprintf("batch %d of the history (hook %s, %s syntax) %s", i+1, b.Hook, syntax, strings.TrimSpace(strings.ReplaceAll(input, "\n", " ")))
 			if gerr != nil {
 				fail("gather-error", fmt.Sprintf("%s: Gather() fails afterwards: %v", where, gerr), i, how)
 				break history
